@@ -325,15 +325,17 @@ func c07R3(e *Engine) {
 			fall := true
 			for _, cd := range condsAt(r.Block()) {
 				cd = normCond(cd)
-				if ex, isEx := cd.V.(*ssa.Extract); isEx && cd.Val {
-					if _, isTA := ex.Tuple.(*ssa.TypeAssert); isTA {
-						fall = false
-					}
+				if cd.Val && e.isAssertOK(cd.V, 0) {
+					fall = false // governed by a successful assertion of the left-hand side (made here or in a helper)
 				}
 				if cd.Val {
 					if c, isC := cd.V.(*ssa.Call); isC && c.Call.StaticCallee() != nil && c.Call.StaticCallee().Name() == "isError" {
 						fall = false
 					}
+				}
+				// the error object of a helper handed on: `if errObj != nil { return errObj }`
+				if x, nonNilOnTrue, isNT := nilTest(cd.V); isNT && cd.Val == nonNilOnTrue && strip(x) == strip(retVals(r)[0]) {
+					fall = false
 				}
 			}
 			if !fall {
@@ -915,4 +917,50 @@ func (e *Engine) returnsOperandUncopied(g *ssa.Function) string {
 		}
 	}
 	return ""
+}
+
+// isAssertOK: v is the ok of a comma-ok type assertion – directly, or as a result of a package-local helper every return
+// of which yields false or such an ok at that position.
+func (e *Engine) isAssertOK(v ssa.Value, depth int) bool {
+	ex, ok := v.(*ssa.Extract)
+	if !ok || depth > 2 {
+		return false
+	}
+	switch t := ex.Tuple.(type) {
+	case *ssa.TypeAssert:
+		return ex.Index == 1
+	case *ssa.Call:
+		h := t.Call.StaticCallee()
+		if h == nil || h.Blocks == nil || e.fnRole(h) != "lang" || ex.Index >= h.Signature.Results().Len() || !isBoolType(h.Signature.Results().At(ex.Index).Type()) {
+			return false
+		}
+		some := false
+		for _, r := range returnsOf(h) {
+			rv := retVals(r)[ex.Index]
+			if b, isK := constBool(rv); isK {
+				if !b {
+					continue
+				}
+				// a constant true is as good as the ok itself when it is returned on the ok side of the assertion
+				governed := false
+				for _, cd := range condsAt(r.Block()) {
+					cd = normCond(cd)
+					if cd.Val && e.isAssertOK(cd.V, depth+1) {
+						governed = true
+					}
+				}
+				if !governed {
+					return false
+				}
+				some = true
+				continue
+			}
+			if !e.isAssertOK(rv, depth+1) {
+				return false
+			}
+			some = true
+		}
+		return some
+	}
+	return false
 }
